@@ -612,12 +612,15 @@ Inductive represent (n : nat) : list ipair -> list ipair -> Prop :=
     (forall o, lin Uinv (lin U o) = o) -> (forall o, lin U (lin Uinv o) = o) ->
     represent n E (map (fun e => let '(i, j, o) := e in (i, j, lin U o)) E).
 
-(* NOT PROVED (tested on every generated pair by [same_spec]): the specification does not depend on
-   the presentation.  Missing: a theory of [rankZ]/[rank2] (that the fraction-free elimination
-   computes the rank of the generated lattice, independent of the spanning tree chosen by [relax]
-   and of the order of the pairs). *)
+(* NOT PROVED in full (tested on every generated pair by [same_spec]): the specification does not depend on
+   the presentation.  Proved (DimensionalityInvariance.v, with [mirror_eq_spec2] / [spec_r2_of_mirror] below):
+   the None answer and the GF(2) rank are invariant under lattice shifts, re-numbering of atoms and change of
+   basis.  Missing: the same for the integer rank -- a theory of [rankZ] (that the fraction-free elimination
+   computes the rank of the generated lattice, independent of the spanning tree chosen by [relax] and of the
+   order of the pairs) -- and supercells (different n; only meaningful when the supercell stays connected). *)
 Definition C09_invariance_full_statement : Prop :=
-  forall n p E E', wf_E n p E = true -> represent n E E' -> dim_spec n p E = dim_spec n p E'.
+  forall n p E E', wf_E n p E = true -> wf_E n p E' = true -> (0 < n)%nat ->
+    represent n E E' -> dim_spec n p E = dim_spec n p E'.
 
 (* PROVED: the covering-graph counting theorem for the code mirror *)
 Definition C09_full_statement : Prop :=
@@ -1041,4 +1044,15 @@ Proof.
   pose proof (K_is_span n p E wf Hn Ep) as HK. unfold vmasks in HK. unfold rank2. rewrite <- HK.
   destruct (mul_pow2 _ _ _ (count_2x n p E Hn Hc)) as [j [Hj [_ HKd]]].
   rewrite HKd, Nat.log2_pow2 by lia. reflexivity.
+Qed.
+
+(* whenever two presentations get the same answer from the code mirror, the specification agrees on
+   None / GF(2) rank *)
+Lemma spec_r2_of_mirror n p E E' : wf_E n p E = true -> wf_E n p E' = true -> (0 < n)%nat ->
+  get_dim_graph n p E' = get_dim_graph n p E ->
+  option_map fst (dim_spec n p E') = option_map fst (dim_spec n p E).
+Proof.
+  intros wf wf' Hn H. rewrite (mirror_eq_spec2 n p E wf Hn), (mirror_eq_spec2 n p E' wf' Hn) in H.
+  destruct (dim_spec n p E') as [[r2' rz']|], (dim_spec n p E) as [[r2 rz]|]; simpl; try discriminate; [|reflexivity].
+  injection H as H. apply Nat2Z.inj in H. subst. reflexivity.
 Qed.
